@@ -336,7 +336,7 @@ Fixpoint as_revision_id (b : branch) (s : spec) : result (option revid) :=
   | SMainline s' =>
       bind (as_revision_id b s') (fun r =>
         match r with
-        | None => Err InvalidRevisionSpec
+        | None => Ok None       (* "null:" ends every left-hand history: find_lefthand_merger gives it back *)
         | Some r' => match find_lefthand_merger (br_g b) r' (br_tip b) with
                      | Some m => Ok (Some m)
                      | None => Err InvalidRevisionSpec
